@@ -170,6 +170,9 @@ Qed.
 Lemma contains_app : forall c a b, contains c (a ++ b) = contains c a || contains c b.
 Proof. intros; unfold contains; apply existsb_app. Qed.
 
+Lemma contains_cons : forall c x l, contains c (x :: l) = (c =? x) || contains c l.
+Proof. reflexivity. Qed.
+
 Lemma split_on_nosep : forall c f, contains c f = false -> split_on c f = [f].
 Proof.
   intros c; induction f as [|x f IH]; intros H; [reflexivity|].
@@ -308,6 +311,7 @@ Proof.
   intros [st en sp sd] W S. unfold cs_wf in W; cbn [cs_start cs_end split] in W.
   unfold split_ok in S; cbn [split] in S.
   assert (Wst : clock_wf st = true) by lia. assert (Wen : clock_wf en = true) by lia.
+  assert (Rsp : (0 <= sp < 4294967296)%Z) by lia.
   destruct (clock_facts st Wst) as (P1 & C1 & M1 & S1 & T1 & K1 & N1 & B1).
   destruct (clock_facts en Wen) as (P2 & C2 & M2 & S2 & T2 & K2 & N2 & B2).
   cbv zeta in *. remember (fmt_clock st) as A eqn:EA. remember (fmt_clock en) as B eqn:EB.
@@ -326,9 +330,12 @@ Proof.
     assert (PC : parse_count ((A ++ sep :: B) ++ tail) = Some (sp, A ++ sep :: B)).
     { unfold parse_count, tail. destruct (0 <? sp)%Z eqn:Esp.
       - rewrite contains_app. cbn [contains existsb N.eqb Pos.eqb orb]. rewrite orb_true_r; cbn [negb].
-        rewrite split_on_app by exact Rest47. rewrite split_on_nosep by (apply Dg; lia).
-        rewrite parse_uint32_dec by lia. destruct (sp =? 0)%Z eqn:E0; [lia | reflexivity].
-      - rewrite app_nil_r, Rest47; cbn [negb]. f_equal. f_equal. lia. }
+        assert (D47 : contains 47 (dec (Z.to_N sp)) = false) by (apply Dg; left; reflexivity).
+        assert (PU : parse_uint32 (dec (Z.to_N sp)) = Some sp) by (apply parse_uint32_dec; exact Rsp).
+        rewrite (split_on_app 47 (A ++ sep :: B) (dec (Z.to_N sp)) Rest47).
+        rewrite (split_on_nosep 47 (dec (Z.to_N sp)) D47). rewrite PU.
+        destruct (sp =? 0)%Z eqn:E0; [clear - E0 Esp; lia | reflexivity].
+      - rewrite app_nil_r, Rest47; cbn [negb]. f_equal. f_equal. clear - Esp Rsp; lia. }
     assert (FMT : A ++ sep :: B ++ tail = (A ++ sep :: B) ++ tail) by (rewrite <- app_assoc; reflexivity).
     rewrite FMT. split; [|split; [|split]].
     + unfold parse_clock_span. rewrite PC.
@@ -340,14 +347,14 @@ Proof.
       rewrite R'.
       assert (NB : beq (A ++ 45 :: B) [45] = false).
       { destruct A as [|a [|a' A']]; [contradiction | | ]; cbn; rewrite ?andb_false_r; try reflexivity.
-        destruct (a =? 45); reflexivity. }
+        all: try (destruct (a =? 45); reflexivity). }
       rewrite NB. rewrite contains_app; cbn [contains existsb N.eqb Pos.eqb orb]. rewrite orb_true_r.
       unfold parse_clock_range. rewrite cut_first_app by exact M1. rewrite P1, P2. reflexivity.
     + rewrite !contains_app. rewrite K1. reflexivity.
     + rewrite !contains_app. cbn [contains existsb]. fold (contains 44 B). rewrite C1, C2.
-      unfold tail. destruct (0 <? sp)%Z; [cbn [contains existsb]; fold (contains 44 (dec (Z.to_N sp))); rewrite (Dg 44) by lia|];
+      unfold tail. destruct (0 <? sp)%Z; [cbn [contains existsb]; fold (contains 44 (dec (Z.to_N sp))); rewrite (Dg 44 (or_introl eq_refl))|];
         unfold sep; destruct sd; reflexivity.
-    + apply nonnil_app_b; exact N1.
+    + apply nonnil_app_b. intros E. apply app_eq_nil in E as [E _]. exact (N1 E).
 Qed.
 
 (* ---- the fragment list *)
@@ -419,18 +426,19 @@ Proof.
   induction l as [|x r IH]; intros H; [reflexivity|].
   destruct r as [|y r']; [reflexivity|].
   cbn [no_cc] in H. apply andb_true_iff in H as [H1 H2]. apply negb_true_iff in H1.
-  cbn [split_cc]. rewrite H1. rewrite (IH H2). reflexivity.
+  change (split_cc (x :: y :: r')) with (if (x =? 44) && (y =? 44) then [] :: split_cc r' else cons_head x (split_cc (y :: r'))).
+  rewrite H1, (IH H2). reflexivity.
 Qed.
 
 Lemma nocc_app : forall a b, contains 44 a = false -> a <> [] -> no_cc b = true ->
   (match b with x :: _ => x <> 44 | [] => True end) -> no_cc (a ++ 44 :: b) = true.
 Proof.
   induction a as [|x [|x' a'] IH]; intros b H N Hb Hh; [contradiction | |].
-  - cbn in H. apply orb_false_iff in H as [H _]. cbn [app no_cc].
+  - rewrite contains_cons in H. apply orb_false_iff in H as [H _]. cbn [app no_cc].
     rewrite N.eqb_sym in H. rewrite H; cbn [andb negb].
     destruct b as [|y b']; [reflexivity|]. rewrite N.eqb_refl; cbn [andb].
     destruct (y =? 44) eqn:E; [apply N.eqb_eq in E; contradiction|]. cbn [negb andb]. exact Hb.
-  - cbn in H. apply orb_false_iff in H as [H H']. rewrite N.eqb_sym in H.
+  - rewrite contains_cons in H. apply orb_false_iff in H as [H H']. rewrite N.eqb_sym in H.
     change ((x :: x' :: a') ++ 44 :: b) with (x :: (x' :: a') ++ 44 :: b). cbn [no_cc app]. rewrite H; cbn [andb negb].
     apply (IH b); [exact H' | discriminate | exact Hb | exact Hh].
 Qed.
@@ -438,7 +446,7 @@ Qed.
 Lemma nocc_nosep : forall a, contains 44 a = false -> no_cc a = true.
 Proof.
   induction a as [|x [|y a'] IH]; intros H; [reflexivity | reflexivity |].
-  cbn in H. apply orb_false_iff in H as [H H']. rewrite N.eqb_sym in H. cbn [no_cc]. rewrite H; cbn [andb negb].
+  rewrite contains_cons in H. apply orb_false_iff in H as [H H']. rewrite N.eqb_sym in H. cbn [no_cc]. rewrite H; cbn [andb negb].
   apply IH. exact H'.
 Qed.
 
@@ -447,13 +455,13 @@ Lemma join_nocc : forall frs, (forall f, In f frs -> contains 44 f = false /\ f 
 Proof.
   induction frs as [|f [|g r] IH]; intros H; [split; [reflexivity | exact I] | |].
   - cbn [join]. destruct (H f (or_introl eq_refl)) as [A B]. split; [apply nocc_nosep; exact A|].
-    destruct f as [|x f']; [contradiction|]. cbn in A. apply orb_false_iff in A as [A _].
+    destruct f as [|x f']; [contradiction|]. rewrite contains_cons in A. apply orb_false_iff in A as [A _].
     intros E; subst x; rewrite N.eqb_refl in A; discriminate.
   - change (join 44 (f :: g :: r)) with (f ++ 44 :: join 44 (g :: r)).
     destruct (H f (or_introl eq_refl)) as [A B].
     destruct (IH (fun x Hx => H x (or_intror Hx))) as [P Q]. split.
     + apply nocc_app; assumption.
-    + destruct f as [|x f']; [contradiction|]. cbn in A. apply orb_false_iff in A as [A _]. cbn [app].
+    + destruct f as [|x f']; [contradiction|]. rewrite contains_cons in A. apply orb_false_iff in A as [A _]. cbn [app].
       intros E; subst x; rewrite N.eqb_refl in A; discriminate.
 Qed.
 
